@@ -374,10 +374,22 @@ func unprotectedPanicSites(r *Run, prog *Program, parse, recoverFn *ssa.Function
 	}
 	// everything the recovering function can reach inside the module
 	if recoverFn != nil {
-		reach, _ := prog.Reachable(recoverFn)
-		for f := range reach {
-			if prog.InModule(f) && f.Pkg == prog.GrammarSSA {
-				add(f)
+		// by static calls inside the grammar package (what formatting packages may call back is not run here)
+		work := []*ssa.Function{recoverFn}
+		seen := map[*ssa.Function]bool{recoverFn: true}
+		for len(work) > 0 {
+			f := work[0]
+			work = work[1:]
+			add(f)
+			for _, b := range f.Blocks {
+				for _, ins := range b.Instrs {
+					if c, ok := ins.(ssa.CallInstruction); ok {
+						if g := c.Common().StaticCallee(); g != nil && !seen[g] && g.Pkg == prog.GrammarSSA && len(g.Blocks) > 0 {
+							seen[g] = true
+							work = append(work, g)
+						}
+					}
+				}
 			}
 		}
 	}
